@@ -21,6 +21,7 @@ type storeRow struct {
 	key             int      // parameter index of the key (receiver is 0, ctx is 1)
 	key2            int      // a second key parameter the record is also filed under (0: none)
 	also            []string // other tables the method may write
+	purge           bool     // the method may drop other (expired) entries of its table while ranging over it
 }
 
 func checkStoreKeyed(c *Ctx, rule string, rows ...storeRow) {
@@ -71,6 +72,8 @@ func checkStoreKeyed(c *Ctx, rule string, rows ...storeRow) {
 					continue
 				}
 				switch {
+				case mut && !same && isRangeKey(e.Args[1]) && !m.purge:
+					ok, w, why = false, p, m.table+" entries other than the one under the "+paramName(fn, m.key)+" parameter are removed or rewritten while ranging over the table (records of used credentials must stay to be recognised)"
 				case mut && !same && !isRangeKey(e.Args[1]):
 					ok, w, why = false, p, m.table+" is modified under "+clip(e.Args[1].Pretty(), 60)+", not under the "+paramName(fn, m.key)+" parameter"
 				case mut && same && (m.op == "create" || m.op == "invalidate" && e.Kind == "mapupdate" || (m.op == "delete" || m.op == "invalidate") && e.Kind == "mapdelete"):
